@@ -15,7 +15,8 @@ LEVEL = ("Static typestate of the chain mailbox on the worker's MIR: the mailbox
          " shape-independent gate - the draw is not reachable from the worker's entry, nor from a previous draw, without a receive on the mailbox (R7). The mailbox "
          "examination may be one match or a sequence of tests (while-let / if-let): the outcome of every value the mailbox can hold is computed by walking the "
          "switches that value decides."
-         " Added (round 4): every receive on the mailbox stores its result into the examined mailbox variable - no second reader (R8).")
+         " Added (round 4): every receive on the mailbox stores its result into the examined mailbox variable - no second reader (R8)."
+         " Added (round 5): Pause is sent only from ChainProcess::pause called in the Pause arm, Resume only from ChainProcess::resume called in the Continue arm (R9).")
 EXPLANATION = ("CFG reachability / path counting (back edges cut) on the MIR of the worker closure and of the controller's command loop; anchors found "
                "by role (closure given to spawn_fifo that calls Chain::expanded_draw; closure that calls Receiver::recv_timeout on SamplerCommand).")
 TRUSTED = ["rustc nightly MIR", "nutsfacts extractor", "rules/c12.py", "std::sync::mpsc: recv blocks until a message or disconnection; try_recv never blocks"]
